@@ -378,7 +378,7 @@ pub fn do_navigate_command_string(mathml: Element, nav_command: &'static str) ->
             nav_state.init_navigation_context(rules_with_context.get_context(), nav_command, nav_state.top());
             
             // start navigation off at the right node
-            if nav_command == "MoveLastLocation" {
+            if nav_command == "MoveLastLocation" && nav_state.position_stack.len() > 1 {
                 nav_state.pop();
             }
 
